@@ -238,6 +238,44 @@ def _multi_file(rng, kind):
     return {"kind": "action", "pid": "act:" + "+".join(files), "files": fl, "namespace": ns, "options": {}}
 
 
+BN_FILES = ["bayesnet/repo/small/cancer.bif", "bayesnet/repo/small/earthquake.bif", "bayesnet/repo/small/survey.bif",
+            "bayesnet/repo/small/asia.bif", "bayesnet/repo/testcases/rain.bif", "bayesnet/repo/testcases/asia_modified.bif"]
+_bn_vars = {}
+
+
+def _bn_variables(path):
+    """[(name, [values])] read from the BIF text (only to phrase queries)"""
+    import re as _re
+    if path not in _bn_vars:
+        out = []
+        try:
+            with open(os.path.join(os.environ.get("POLAR_REPO", "/repo"), path)) as f:
+                txt = f.read()
+            for m in _re.finditer(r"variable\s+(\S+)\s*\{[^}]*?type\s+discrete\s*\[\s*\d+\s*\]\s*\{([^}]*)\}", txt, _re.S):
+                out.append((m.group(1), [v.strip() for v in m.group(2).split(",") if v.strip()]))
+        except OSError:
+            pass
+        _bn_vars[path] = out
+    return _bn_vars[path]
+
+
+def _bn_action(rng):
+    """BayesNetworkAction: BIF import, code generation (name sanitising draws from `random`), exact inference / sampling time"""
+    path = rng.choice(BN_FILES)
+    vs = _bn_variables(path)
+    if len(vs) < 2:
+        return _sensitivity_action(rng)
+    target = rng.choice(vs)
+    ev = rng.sample([v for v in vs if v[0] != target[0]], rng.choice([1, 1, 2]) if len(vs) > 2 else 1)
+    evidence = ", ".join(f"{n} = {rng.choice(vals)}" for n, vals in ev)
+    ns = {}
+    if rng.random() < 0.7:
+        ns["exact_inference"] = f"{target[0]}**{rng.choice([1, 1, 2])} | {evidence}"
+    else:
+        ns["sample_time_until"] = evidence
+    return {"kind": "action", "pid": "bn:" + path, "files": [{"path": path}], "namespace": ns, "options": {}}
+
+
 def _sensitivity_action(rng):
     """SensitivityAction (recurrences of derivatives, or differentiated closed forms) on a program with a symbolic constant"""
     c = corpus()["ok"]
@@ -277,8 +315,10 @@ def gen_case(seed, extra=None):
             s = _branch_draw_variant(rng, d, rng.random() < 0.3)
         elif r < 0.8:
             s = _lib_error(rng)
-        elif r < 0.86:
+        elif r < 0.84:
             s = _sensitivity_action(rng)
+        elif r < 0.88:
+            s = _bn_action(rng)
         else:
             s = _multi_file(rng, "action")
         if s["kind"] == "lib" and s["program"].get("path") in corpus()["ok"]:
@@ -727,6 +767,7 @@ def _probes(case, wres):
     p["counter_collision_candidate"] = 1 if any(pp.get("mode") == "at_least" for o in case["ops"] for pp in o.get("pre", [])) else 0
     p["cache_shrink_world"] = 1 if case.get("world_flags", {}).get("cache_shrink") else 0
     p["sensitivity_session"] = 1 if any(str(s.get("pid", "")).startswith("sens:") for s in case["sessions"]) else 0
+    p["bayes_network_session"] = 1 if any(str(s.get("pid", "")).startswith("bn:") for s in case["sessions"]) else 0
     p["lib_invariants_session"] = 1 if any(s.get("invariants") for s in case["sessions"] if s["kind"] == "lib") else 0
     p["after_loop_goal"] = 1 if any(g.get("kind") == "after_loop" for s in case["sessions"] if s["kind"] == "lib" for g in s.get("goals", [])) else 0
     p["abandoned_or_repeated"] = 1
